@@ -17,11 +17,15 @@ type thrAccess struct {
 	idx   int      // event index within the thread
 	locks []*value // mutexes held
 	fn    string   // function performing the access
+	sig   string   // the set of locks held, as text
 }
 
+// cellLog keeps, per thread, the first read and the first write of the
+// cell under every distinct set of held locks (an access made after the
+// lock was released must not hide behind an earlier one made under it).
 type cellLog struct {
-	reads  map[int]*thrAccess // first read per thread
-	writes map[int]*thrAccess // first write per thread
+	reads  map[int][]*thrAccess
+	writes map[int][]*thrAccess
 }
 
 type critSec struct {
@@ -52,22 +56,25 @@ func (p *Path) logAccess(addr interface{}, write bool, fr *frame) {
 	th := tm.threads[tm.cur-1]
 	cl := tm.cells[addr]
 	if cl == nil {
-		cl = &cellLog{reads: map[int]*thrAccess{}, writes: map[int]*thrAccess{}}
+		cl = &cellLog{reads: map[int][]*thrAccess{}, writes: map[int][]*thrAccess{}}
 		tm.cells[addr] = cl
 	}
 	m := cl.reads
 	if write {
 		m = cl.writes
 	}
-	if m[tm.cur] != nil {
-		return
+	sig := fmt.Sprint(th.held)
+	for _, a := range m[tm.cur] {
+		if a.sig == sig {
+			return
+		}
 	}
 	th.events++
 	name := ""
 	if fr != nil && fr.fn != nil {
 		name = fr.fn.String()
 	}
-	m[tm.cur] = &thrAccess{idx: th.events, locks: append([]*value{}, th.held...), fn: name}
+	m[tm.cur] = append(m[tm.cur], &thrAccess{idx: th.events, locks: append([]*value{}, th.held...), fn: name, sig: sig})
 }
 
 func (p *Path) lockEvent(m *value, acquire bool) {
@@ -153,16 +160,20 @@ func (p *Path) findRaces() {
 	key := func(a interface{}) string {
 		cl := tm.cells[a]
 		best := ""
-		for t, x := range cl.writes {
-			k := fmt.Sprintf("%d.%06d", t, x.idx)
-			if best == "" || k < best {
-				best = k
+		for t, xs := range cl.writes {
+			for _, x := range xs {
+				k := fmt.Sprintf("%d.%06d", t, x.idx)
+				if best == "" || k < best {
+					best = k
+				}
 			}
 		}
-		for t, x := range cl.reads {
-			k := fmt.Sprintf("%d.%06d", t, x.idx)
-			if best == "" || k < best {
-				best = k
+		for t, xs := range cl.reads {
+			for _, x := range xs {
+				k := fmt.Sprintf("%d.%06d", t, x.idx)
+				if best == "" || k < best {
+					best = k
+				}
 			}
 		}
 		return best
@@ -170,15 +181,21 @@ func (p *Path) findRaces() {
 	sort.Slice(addrs, func(i, j int) bool { return key(addrs[i]) < key(addrs[j]) })
 	for _, ad := range addrs {
 		cl := tm.cells[ad]
-		for ta, wa := range cl.writes {
-			for tb, wb := range cl.writes {
-				if ta < tb {
-					pairs = append(pairs, pair{ad, ta, tb, wa, wb, "write/write"})
+		for ta, was := range cl.writes {
+			for _, wa := range was {
+				for tb, wbs := range cl.writes {
+					if ta < tb {
+						for _, wb := range wbs {
+							pairs = append(pairs, pair{ad, ta, tb, wa, wb, "write/write"})
+						}
+					}
 				}
-			}
-			for tb, rb := range cl.reads {
-				if ta != tb {
-					pairs = append(pairs, pair{ad, ta, tb, wa, rb, "write/read"})
+				for tb, rbs := range cl.reads {
+					if ta != tb {
+						for _, rb := range rbs {
+							pairs = append(pairs, pair{ad, ta, tb, wa, rb, "write/read"})
+						}
+					}
 				}
 			}
 		}
@@ -254,14 +271,17 @@ func (p *Path) raceQuery(ta int, a *thrAccess, tb int, b *thrAccess) bool {
 			if pos[wt] > pos[rt] {
 				continue
 			}
-			wa, rb := cl.writes[wt], cl.reads[rt]
-			if wa == nil || rb == nil || !common(wa.locks, rb.locks) {
-				continue
-			}
-			if len(deps) < 200 {
-				deps = append(deps, dep{wt, wa.idx, rt, rb.idx})
-				extra[wt][wa.idx] = true
-				extra[rt][rb.idx] = true
+			for _, wa := range cl.writes[wt] {
+				for _, rb := range cl.reads[rt] {
+					if !common(wa.locks, rb.locks) {
+						continue
+					}
+					if len(deps) < 200 {
+						deps = append(deps, dep{wt, wa.idx, rt, rb.idx})
+						extra[wt][wa.idx] = true
+						extra[rt][rb.idx] = true
+					}
+				}
 			}
 		}
 	}
